@@ -1614,6 +1614,16 @@ func (n *RootNode) Render(w io.Writer, ctx *RenderContext) error {
 		return extendsNode.Render(w, ctx)
 	}
 
+	// A macro can be called above the place where it is written (its definition is part
+	// of the template, not a statement that has to run first)
+	for _, child := range n.children {
+		if macro, ok := child.(*MacroNode); ok {
+			if err := macro.Render(io.Discard, ctx); err != nil {
+				return err
+			}
+		}
+	}
+
 	// For a regular template (not extending another), render all nodes
 	// This includes block nodes, which will use their default content unless overridden
 	for _, child := range n.children {
